@@ -185,3 +185,30 @@ Fixpoint prover_run (root : cell) (ops : list op) : list (option (res cell)) :=
   | o :: t => let '(root', out) := prover_step root o in out :: prover_run root' t
   end.
 End Ops.
+
+(** *** cursor programs
+    What an application may write with the cursor API in any order: cursor
+    variables are numbered in creation order (0 is [prover.Cursor()]);
+    [IRef src k] is [v_new := v_src.Ref(k)], [IPrune v] is [v.Prune()].  A
+    cursor is a VALUE: its position is fixed when it is created, whatever is
+    done with other cursors afterwards.  The program prunes the positions of
+    its Prune instructions; the proof is that of a walk pruning those. *)
+Inductive instr := IRef (src k : nat) | IPrune (v : nat).
+
+Fixpoint prog_run (vars : list (list nat)) (pruned : list (list nat)) (is : list instr)
+  : list (list nat) :=
+  match is with
+  | [] => pruned
+  | IRef src k :: t =>
+      match nth_error vars src with
+      | Some p => prog_run (vars ++ [p ++ [k]]) pruned t
+      | None => prog_run vars pruned t
+      end
+  | IPrune v :: t =>
+      match nth_error vars v with
+      | Some p => prog_run vars (pruned ++ [p]) t
+      | None => prog_run vars pruned t
+      end
+  end.
+
+Definition prog_prunes (is : list instr) : list (list nat) := prog_run [[]] [] is.
